@@ -13,6 +13,7 @@ from . import _codec_common as cc
 ID = "C07"
 TITLE = "Deserialization is total and obeys implicit truncation / zero extension"
 RULE = (
+    "(Further kinds: `inflate` - every delimited object at every nesting level is followed by 0..11 bytes its reader does not know, all enclosing headers counting them, optionally with one header bumped beyond its payload or beyond every enclosing payload; flip / header / inflate optionally followed by further bytes in the same buffer; part nested-delimited: delimited inside delimited, 2..3 levels, the nested object last / in the middle / in an array, tight and slack extents.  Buffer forms: memoryviews of other item formats (b, c, H, I, Q, h, f) and two-dimensional shapes of the same bytes.)  "
     "Cases are (type spec, byte string, flags): specs from G-TYPE (capacities <= 12, nested delimited members) plus five fixed specs with 16 / 32-bit length prefixes and payloads beyond 255 bytes, bytes that are uniformly "
     "random (length 0..2x the longest representation), a prefix of a valid representation, a valid representation with 1..3 flipped bits "
     "(hitting length prefixes, tags, delimiter headers), a valid representation followed by junk, a valid representation with one delimiter header made smaller or larger, or all-0xFF; with and without the "
